@@ -199,6 +199,12 @@ def abs_comprehension(C, e, g, it, st, fr, as_list):
     for dpc, v2, _s in res[1:]:
         # several outcomes (conditional expressions): merged into one if-then-else value
         val = C.ite_sv(z3.And(*dpc) if dpc else z3.BoolVal(True), v2, val)
+    if isinstance(val, SOpt) and isinstance(val.inner, (SInt, SVal)):
+        # an optional number per element: usable when it is provably not None for every member (else outside the subset)
+        if valid(C.assumptions(scratch, force=True), z3.Not(val.isnone), 1500):
+            val = val.inner
+        else:
+            raise Unsupported('comprehension element may be None: ' + ast.unparse(e)[:90])
     if isinstance(val, (SInt, SVal, SRef, SStr, SBool)):
         vt = val.t
         ek2 = {'int': 'int', 'val': 'val', 'str': 'str', 'bool': 'bool'}.get(val.kind) or ('ref:' + val.cname)
@@ -659,6 +665,16 @@ def user_loop_spec(C, s, fr, kind):
     return spec, anchor
 
 
+def variant_decreases(v0, v1):
+    "a single integer term decreases and is bounded below; a list decreases lexicographically, every component bounded below"
+    if not isinstance(v0, list):
+        return z3.And(v0 >= 0, v1 < v0)
+    dec = z3.BoolVal(False)
+    for k in range(len(v0) - 1, -1, -1):
+        dec = z3.Or(v1[k] < v0[k], z3.And(v1[k] == v0[k], dec))
+    return z3.And(*([x >= 0 for x in v0] + [dec]))
+
+
 def eval_spec_exprs(C, node, st, fr, extra_env):
     """evaluate the statements of a @loops block in the function's frame: returns
     {'invariant': [(label, formula)], 'variant': term or None}"""
@@ -687,7 +703,8 @@ def eval_spec_exprs(C, node, st, fr, extra_env):
                     continue
                 if fn == 'variant':
                     v = C.spec_eval(stt.value.args[0], st, sfr)
-                    out['variant'] = v.t
+                    # variant((a, b)): a lexicographic pair of integers
+                    out['variant'] = [x.t for x in v.items] if isinstance(v, STuple) else v.t
                     continue
             if isinstance(stt, ast.Assign):
                 v = C.spec_eval(stt.value, st, sfr)
@@ -1028,7 +1045,7 @@ def cut_loop(C, kind, s, st, fr, L=None):
             if v0 is not None:
                 v1 = eval_spec_exprs(C, unode, o.st.fork(), fr, spec_env(i + 1))['variant']
                 ex.col.add('VAR', props, fname, '%s:variant' % anchor, 'variant decreases and is bounded below',
-                           C.assumptions(o.st), z3.And(v0 >= 0, v1 < v0))
+                           C.assumptions(o.st), variant_decreases(v0, v1))
         elif o.kind == 'brk':
             exits.append(Out('ok', None, o.st))
         else:
